@@ -679,6 +679,20 @@ class C14(Check):
             chk = _delegate(pid)
             for c in chk.generate(random.Random(f"C14-{pid}-{rng.random()}"), cnt if tier == "quick" else cnt * 10, tier):
                 out.append({"kind": "op", "prop": pid, "case": c})
+        # quotients that FAIL after part of the work succeeded (one dividend guarantee is refined through a divisor guarantee,
+        # another mentions a shared input that nothing eliminates), with and without simplification: the error must leave the
+        # operands unchanged and usable
+        for _ in range(60 if tier == "quick" else 600):
+            kk = lambda: float(rng.choice([1, 2, 3]))  # noqa: E731
+            sg = rng.choice([1.0, -1.0])
+            top = {"ins": ["i", "j"], "outs": ["o"], "a": [] if rng.random() < 0.6 else [{"c": {"i": sg}, "k": float(rng.randint(1, 5))}],
+                   "g": [{"c": {"o": sg * kk(), "i": -sg * kk()}, "k": float(rng.randint(0, 3))}, {"c": {"o": kk(), "j": rng.choice([-1.0, 1.0]) * kk()}, "k": float(rng.randint(1, 5))}]}
+            oth = {"ins": ["i", "j"], "outs": ["x"], "a": [], "g": [{"c": {"x": sg * kk(), "i": -sg * kk()}, "k": float(rng.randint(0, 3))}]}
+            if rng.random() < 0.3:
+                top["g"].reverse()
+            out.append({"kind": "op", "prop": "C02", "case": {"op": "quotient", "c1": top, "c2": oth, "addl": [], "simplify": rng.random() < 0.4,
+                                                               "order": [1, 2, 3, 4, 5] if rng.random() < 0.7 else rng.sample([1, 2, 3, 4, 5], rng.randint(2, 5)),
+                                                               "tag": "partial-failure"}})
         return out
 
     NUMS = [0, 1, 2, 3, 4, 10, 0.5, 0.25, 1.5]
@@ -724,7 +738,12 @@ class C14(Check):
                 r = _delegate(case["prop"]).run_impl(case["case"])
             except Exception as e:  # noqa
                 r = {"err": C.classify_exc(e), "msg": str(e)[:200]}
-            return {"err": r["err"], "msg": r.get("msg", ""), "at": case["prop"] + " stream"} if "err" in r else {"ok": True}
+            if "err" in r:
+                out = {"err": r["err"], "msg": r.get("msg", ""), "at": case["prop"] + " stream"}
+                if r.get("damage"):
+                    out["damage"] = r["damage"]
+                return out
+            return {"ok": True}
         if k == "dict":
             return run_dict(case)
         if k == "string":
@@ -794,6 +813,10 @@ class C14(Check):
             return {"signature": f"undocumented-exception:{cls}@{impl.get('at', '?')}",
                     "what": f"{where}: {impl['err']} ({impl.get('msg', '')}) escaped from {impl.get('at')} for " + self.describe(case),
                     "witness": {"input": case.get("value", case.get("s", impl.get("s"))), "fault": case.get("fault")}}
+        if impl.get("damage"):
+            return {"signature": f"error-damages-operand@{impl.get('at', '?')}",
+                    "what": f"{impl['err']} was raised and left an operand changed or unusable: {impl['damage'][:300]}; " + self.describe(case),
+                    "witness": {"input": case.get("case")}}
         if k != "dict":
             return None
         if impl.get("mutated") or impl.get("file_changed"):
